@@ -86,6 +86,13 @@ def tight_pairs(root: Any) -> set:
     return {(id(a), id(b)) for a, b in zip(toks, toks[1:]) if type(a).__name__ not in SELF_DELIMITING and type(b).__name__ not in SELF_DELIMITING}
 
 
+def unindented_comment_ids(root: Any) -> set:
+    """Block comments with a line that starts at column 0 (the open finding about an unindented comment inside a body needs one in the document
+    BEFORE the edit - directly below a header, with or without body lines behind it)."""
+    return {id(t) for t in O.store_tokens(root.token_store)
+            if type(t).__name__ == 'BlockComment' and any(ln.startswith(';') for ln in t.raw_text.split('\n'))}
+
+
 def shown(root: Any) -> list:
     """What the value-level and filtered views of every model SHOW (tags, links, currencies, custom values, postings, directives, meta): "what the
     model says" is also what these say - the raw tree can agree with the text while a view with a stale index table reports something else
@@ -196,6 +203,7 @@ def run_case(case: dict) -> Result:
         if a.structural and a.P is not None and isinstance(a.P, base.RawTreeModel):
             neighbours = len([c for c in O.raw_children(a.P) if not isinstance(c, O.ZERO_WIDTH)]) >= 2
         tight0 = tight_pairs(root)
+        unind_ids0 = unindented_comment_ids(root)
         toks0 = [t for t in O.store_tokens(root.token_store) if t.raw_text != '']
         tight_comma0 = {id(x) for x, y in zip(toks0, toks0[1:]) if type(x).__name__ == 'Comma' and not isinstance(y, O.Whitespace)}
         try:
@@ -227,10 +235,15 @@ def run_case(case: dict) -> Result:
             # the open finding is about a comma that was written tight in the text beforehand; a comma the edit itself wrote without a blank is not it
             if not old_tight_comma:
                 bad = (f'digest:{a.key()}:edit-wrote-tight-comma', bad[1])
-        if bad and bad[0] == 'reparse-rejected:unindented-comment-before-body-line' and not pinned:
-            # the open finding needs such a comment in the text beforehand (those documents are excluded above); here the edit itself wrote an
-            # unindented comment line into a body - not the known finding (round 8, seed C09-h)
+        if bad and bad[0] == 'reparse-rejected:unindented-comment-before-body-line' and not pinned and (unindented_comment_ids(root) - unind_ids0):
+            # the open finding needs an unindented comment in the document beforehand; here the edit itself wrote an unindented comment line
+            # (a comment that had none before, or a new comment) - not the known finding (round 8, seed C09-h)
             bad = (f'reparse-rejected:{a.key()}:edit-wrote-unindented-comment-line', bad[1])
+        elif bad and bad[0] == 'reparse-rejected:unindented-comment-before-body-line' and not pinned:
+            # the open finding reached from a layout the exclusion above does not see (an unindented comment below a header with no body line yet)
+            classes.add('excluded-unindented-comment-in-body')
+            res.excluded_known += 1
+            break
         if bad and (tight_pairs(root) - tight0) and a.removed and not a.inserted:
             # open finding: in a compact layout ('10.00USD', '1"a"2') the removed child was the only thing between its neighbours
             texts = [(x.raw_text, y.raw_text) for x, y in zip(O.store_tokens(root.token_store), O.store_tokens(root.token_store)[1:]) if (id(x), id(y)) in tight_pairs(root) - tight0]
